@@ -597,7 +597,10 @@ func c23ApplyMod(dst, st []int8, cands []c23Cand, mod int) []int8 {
 	return dst
 }
 
-func c23Qual(toks []c23Tok, cd *c23Cand, mod int, extra bool) string {
+// c23Qual names the class of a missing / extra path for the violation key.
+// modOnly: the same pattern without the global modifier conformed, so the
+// modifier handling is what is off.
+func c23Qual(toks []c23Tok, cd *c23Cand, mod int, extra, modOnly bool) string {
 	hasM, hasSS := false, false
 	for _, t := range toks {
 		if t.match != nil && t.kind != c23KQ {
@@ -609,7 +612,11 @@ func c23Qual(toks []c23Tok, cd *c23Cand, mod int, extra bool) string {
 	}
 	typeMod := mod == c23MTypeDir || mod == c23MTypeRegular
 	switch {
-	case mod == c23MButA && cd.text == "a":
+	case modOnly && typeMod && cd.kind == c23Link:
+		return "type-of-symlink"
+	case modOnly && typeMod:
+		return "type"
+	case modOnly && mod == c23MButA:
 		return "but"
 	case extra && cd.hidden:
 		return "hidden"
@@ -617,16 +624,12 @@ func c23Qual(toks []c23Tok, cd *c23Cand, mod int, extra bool) string {
 		return "restricted-star"
 	case cd.hidden:
 		return "hidden"
-	case typeMod && cd.kind == c23Link:
-		return "type-of-symlink"
 	case cd.symAt >= 0:
 		return "through-symlink"
 	case hasSS:
 		return "starstar"
 	case cd.trailing:
 		return "trailing-slash"
-	case typeMod:
-		return "type"
 	}
 	return "plain"
 }
@@ -639,7 +642,7 @@ type c23Outcome struct {
 }
 
 // c23Judge compares one expansion with the reference; key "" = conforms.
-func c23Judge(tr *c23Tree, toks []c23Tok, st []int8, mod int, prefix string, o *c23Outcome) (key, msg string) {
+func c23Judge(tr *c23Tree, toks []c23Tok, st []int8, mod int, modOnly bool, prefix string, o *c23Outcome) (key, msg string) {
 	if o.err != "" {
 		if strings.HasPrefix(o.err, "panic") {
 			return "panic:" + vk.PanicSite(o.err), o.err
@@ -669,7 +672,7 @@ func c23Judge(tr *c23Tree, toks []c23Tok, st []int8, mod int, prefix string, o *
 		}
 		seen[found] = true
 		if st[found] == 0 {
-			return "extra-match:" + c23Qual(toks, &tr.cands[found], mod, true), fmt.Sprintf("result contains %q, which the pattern does not match", g)
+			return "extra-match:" + c23Qual(toks, &tr.cands[found], mod, true, modOnly), fmt.Sprintf("result contains %q, which the pattern does not match", g)
 		}
 	}
 	anyReq := false
@@ -681,7 +684,7 @@ func c23Judge(tr *c23Tree, toks []c23Tok, st []int8, mod int, prefix string, o *
 				if o.noMatch {
 					how = "'wildcard has no match' was raised although the pattern matches"
 				}
-				return "missing-match:" + c23Qual(toks, &tr.cands[j], mod, false), fmt.Sprintf("%s %q", how, prefix+tr.cands[j].text)
+				return "missing-match:" + c23Qual(toks, &tr.cands[j], mod, false, modOnly), fmt.Sprintf("%s %q", how, prefix+tr.cands[j].text)
 			}
 		}
 	}
@@ -843,16 +846,18 @@ func (w *c23Worker) doPattern(tr *c23Tree, root string, p *c23Pat, plan c23Plan,
 		st = append(st, s)
 	}
 	w.st = st
-	check := func(via, shown string, toks []c23Tok, st []int8, mod int, prefix string, o c23Outcome, sub int64) {
+	check := func(via, shown string, toks []c23Tok, st []int8, mod int, prefix string, o c23Outcome, sub int64) bool {
 		w.l.Case(via + "|" + p.shape + "|" + c23ModText[mod] + "|" + c23Outcls(st, &o))
-		if key, msg := c23Judge(tr, toks, st, mod, prefix, &o); key != "" {
+		if key, msg := c23Judge(tr, toks, st, mod, mod != c23MNone, prefix, &o); key != "" {
 			res := fmt.Sprintf("%q", o.got)
 			if o.noMatch {
 				res = "exception 'wildcard has no match'"
 			}
 			full := fmt.Sprintf("tree %s, %s %s: %s; got %s, %s", tr.desc, via, shown, msg, res, c23Expect(tr, st))
 			w.report(order*64+sub, key, full, map[string]any{"tree": tr.desc, "via": via, "pattern": shown})
+			return false
 		}
+		return true
 	}
 	if plan.api {
 		check("glob.Pattern.Glob", "segments "+p.tokText(), p.toks, st, c23MNone, "", w.runGlob(glob.Pattern{Segments: p.segs}), 0)
@@ -871,11 +876,13 @@ func (w *c23Worker) doPattern(tr *c23Tree, root string, p *c23Pat, plan c23Plan,
 		}
 	}
 	if plan.elv && p.elv {
-		check("elvish", "put "+p.text, p.toks, st, c23MNone, "", w.runElv("put "+p.text), 3)
+		baseOK := check("elvish", "put "+p.text, p.toks, st, c23MNone, "", w.runElv("put "+p.text), 3)
 		if plan.abs {
 			check("elvish", "put "+root+"/"+p.text, p.toks, st, c23MNone, root+"/", w.runElv("put "+root+"/"+p.text), 4)
 		}
-		if plan.mods {
+		// global modifiers are judged where the pattern itself conforms (otherwise
+		// the violation just reported would be reported again under other keys)
+		if plan.mods && baseOK {
 			wilds := p.wilds
 			if len(p.toks) > 3 {
 				wilds = wilds[:1]
@@ -968,7 +975,7 @@ func (w *c23Worker) doSeqs(tr *c23Tree, p *c23Pat, seqs [][]int, order int64) {
 			w.st = st
 			w.st2 = c23ApplyMod(w.st2, st, tr.cands, mod)
 			o := c23ListOutcome(vs[k])
-			key, msg := c23Judge(tr, toks, w.st2, mod, "", &o)
+			key, msg := c23Judge(tr, toks, w.st2, mod, false, "", &o)
 			if key == "" {
 				continue
 			}
@@ -979,7 +986,7 @@ func (w *c23Worker) doSeqs(tr *c23Tree, p *c23Pat, seqs [][]int, order int64) {
 			fvs, ferr, fpan := w.eval(fmt.Sprintf("try { put [%s] } catch e { put $e }", single))
 			if fpan == "" && ferr == nil && len(fvs) == 1 {
 				fo := c23ListOutcome(fvs[0])
-				if fk, _ := c23Judge(tr, toks, w.st2, mod, "", &fo); fk == "" {
+				if fk, _ := c23Judge(tr, toks, w.st2, mod, false, "", &fo); fk == "" {
 					res := fmt.Sprintf("%q", o.got)
 					if o.noMatch {
 						res = "exception 'wildcard has no match'"
